@@ -96,11 +96,35 @@ func nontrivial(t []string, out string) bool {
 }
 
 func gen(g *hx.Gen) {
+	witness(g)
 	nh := g.N(40, 300)
 	for i := 0; i < nh; i++ {
 		tree(g, i)
 	}
 	sim.Close()
+}
+
+// witness is the shape of `C12_failed_switch_false`: main chain a1 a2; branch b1 (valid), b2 (fails
+// its context check), b3 — delivering b3 starts the switch, which stops after b1.
+func witness(g *hx.Gen) {
+	h := &regnet.HistGen{S: sim, R: g.R, Emit: g.Emit}
+	h.Start()
+	trunk := &regnet.Branch{}
+	for i := 0; i < 2; i++ {
+		b := h.Block(trunk, nil, regnet.MineOpts{Miner: 1})
+		trunk = regnet.Extend(trunk, b)
+		h.Deliver(b)
+	}
+	br := &regnet.Branch{}
+	b1 := h.Block(br, nil, regnet.MineOpts{Miner: 2})
+	br = regnet.Extend(br, b1)
+	b2 := h.BadBlock(br)
+	br = regnet.Extend(br, b2)
+	b3 := h.Block(br, nil, regnet.MineOpts{Miner: 2})
+	for _, b := range []*types.Block{b1, b2, b3} {
+		h.Deliver(b)
+	}
+	h.Emit("obs c h")
 }
 
 // tree builds a random block tree (≤ 30 blocks, forks ≤ 6 deep), optionally with one invalid block in
